@@ -579,6 +579,10 @@ class Memory():
             self._write_requests_lock.acquire()
             do_call_sucess_cb = False
             do_call_fail_cb = False
+            if len(self._write_requests[id]) == 0:
+                # No write is ongoing for this memory, this is a duplicated or late reply
+                self._write_requests_lock.release()
+                return
             wreq = self._write_requests[id][0]
             if status == 0:
                 if wreq.write_done(addr):
